@@ -346,8 +346,10 @@ def run(ctx):
         z = [ln for ln in r.coverage_zero() if "Order" in ln or "Recursive" in ln]
         if z:
             raise MachineryError(f"vacuous: actions never taken: {z}")
-    cases = r.prints("CASE")
-    cases.sort(key=lambda c: json.dumps(c["W"], sort_keys=True))
+    uniq = {}
+    for c in r.prints("CASE"):                      # TLC may evaluate the exporting constraint twice for a state
+        uniq.setdefault(json.dumps(c["W"], sort_keys=True), c)
+    cases = [uniq[k] for k in sorted(uniq)]
     if len(cases) < 500:
         raise MachineryError(f"Order exported only {len(cases)} worlds: vacuous")
     for name, pred in GUARDS.items():
